@@ -171,3 +171,41 @@ pub fn family<'s>(acc: &mut Acc, words: &'s [String]) {
         }
     }
 }
+
+/// Context providers used as *iterables* (`hdr.ignore_with_ctx(items)` / `hdr.then_with_ctx(items)` driven item by
+/// item, alone and chained behind other iterables with `then`) against the parser-level formulation
+/// (`hdr.then_with_ctx(items.collect())`): every item is tagged with the context it was parsed under, so a
+/// provider that runs at the wrong place or time shows in the tags, in the bounds and in acceptance.
+/// Words over {a, 1, 2, x}.
+pub fn iter_family<'s>(acc: &mut Acc, words: &'s [String]) {
+    let hdr = || one_of::<_, &str, E>("0123").map(|c: char| c.to_digit(10).unwrap() as usize);
+    let item = || one_of::<_, &str, EN>("xa").map_with(|c: char, e| format!("{}{}", c, *e.ctx()));
+    let items = || item().repeated().configure(|cfg, n: &usize| cfg.exactly(*n));
+    let plain = || just::<_, &str, E>('a').map(|_| "a-".to_string()).repeated();
+    let cat = |v: Vec<String>| v.concat();
+    // one section
+    let forms: Vec<(&str, B<'s, '_>)> = vec![
+        ("parser-level provider: plain.collect().then(hdr.ignore_with_ctx(items.collect()))", plain().collect::<Vec<String>>().then(hdr().ignore_with_ctx(items().collect::<Vec<String>>())).map(|(mut a, b)| { a.extend(b); a }).map(cat).boxed()),
+        ("iterable chain: plain.then(hdr.ignore_with_ctx(items)).collect()", plain().then(hdr().ignore_with_ctx(items())).collect::<Vec<String>>().map(cat).boxed()),
+        ("iterable chain: plain.then(hdr.then_with_ctx(items)).collect()", plain().then(hdr().then_with_ctx(items())).collect::<Vec<String>>().map(cat).boxed()),
+    ];
+    compare(acc, "a* then one length-prefixed section (d item{d}), items tagged with the context they saw", &forms, words);
+    // two sections in a row
+    let forms: Vec<(&str, B<'s, '_>)> = vec![
+        (
+            "parser-level providers",
+            plain().collect::<Vec<String>>().then(hdr().ignore_with_ctx(items().collect::<Vec<String>>())).then(hdr().ignore_with_ctx(items().collect::<Vec<String>>())).map(|((mut a, b), c)| { a.extend(b); a.extend(c); a }).map(cat).boxed(),
+        ),
+        ("iterable chain: plain.then(section).then(section).collect()", plain().then(hdr().ignore_with_ctx(items())).then(hdr().ignore_with_ctx(items())).collect::<Vec<String>>().map(cat).boxed()),
+        ("iterable chain: plain.then(section.then(section)).collect()", plain().then(hdr().ignore_with_ctx(items()).then(hdr().then_with_ctx(items()))).collect::<Vec<String>>().map(cat).boxed()),
+    ];
+    compare(acc, "a* then two length-prefixed sections", &forms, words);
+    // the provider alone as an iterable, under the drivers
+    let forms: Vec<(&str, B<'s, '_>)> = vec![
+        ("parser-level provider, count of the collected items", hdr().ignore_with_ctx(items().collect::<Vec<String>>()).map(|v| v.len()).then(any::<&str, E>().repeated().collect::<String>()).map(r).boxed()),
+        ("hdr.ignore_with_ctx(items).count()", hdr().ignore_with_ctx(items()).count().then(any::<&str, E>().repeated().collect::<String>()).map(r).boxed()),
+        ("hdr.then_with_ctx(items).enumerate().count()", hdr().then_with_ctx(items()).enumerate().count().then(any::<&str, E>().repeated().collect::<String>()).map(r).boxed()),
+        ("empty().foldl(hdr.ignore_with_ctx(items))", empty::<&str, E>().to(0usize).foldl(hdr().ignore_with_ctx(items()), |n, _| n + 1).then(any::<&str, E>().repeated().collect::<String>()).map(r).boxed()),
+    ];
+    compare(acc, "one section alone: number of items, then the rest", &forms, words);
+}
